@@ -70,7 +70,7 @@ example : mkTokenizer "   ".toList " \t\n".toList false false = .ok ⟨[], [], 0
 /-- every method keeps the class invariant -/
 theorem call_preserves_wf (nested : Bool) (t t' : Tokenizer) (c : Call) (a : Ans) (hwf : t.WF)
     (h : callStep nested true t c = .ok (a, t')) : t'.WF := by
-  obtain ⟨a', t'', e, h1, _⟩ := callStep_spec nested t (.inr hwf) c
+  obtain ⟨a', t'', e, h1, _⟩ := callStep_spec nested t hwf c
   rw [e] at h; cases h; exact h1 hwf
 
 example : (⟨["a".toList, [], "c".toList], [",".toList, ",".toList], 1⟩ : Tokenizer).WF :=
@@ -81,7 +81,7 @@ example : callStep false true ⟨["a".toList, [], "c".toList], [",".toList, ",".
 /-- any sequence of calls on an object satisfying the invariant is safe -/
 theorem tokenizer_calls_safe (nested : Bool) (t : Tokenizer) (hwf : t.WF) (calls : List Call) :
     safe (runCalls nested true t calls) = true := by
-  obtain ⟨l, e⟩ := runCalls_ok nested t (.inr hwf) calls
+  obtain ⟨l, e⟩ := runCalls_ok nested t hwf calls
   simp [e]
 
 example : runCalls false true ⟨["a".toList, "b".toList], [",".toList], 0⟩
@@ -140,49 +140,44 @@ theorem nested_ctor_safe (s op en d : Str) (solid : Bool) (hs : s.length < 21474
 
 example : "a(,)b,c".toList.length < 2147483648 := by decide
 example : mkNested "a(,)b,c".toList "(".toList ")".toList ",".toList false =
-    .ok ⟨["a(,)b".toList, "c".toList], [], 0⟩ := by rfl
+    .ok ⟨["a(,)b".toList, "c".toList], [",".toList], 0⟩ := by rfl
 example : mkNested "a((;;));;c".toList "(".toList ")".toList ";;".toList true =
-    .ok ⟨["a((;;))".toList, "c".toList], [], 0⟩ := by rfl
+    .ok ⟨["a((;;))".toList, "c".toList], [";;".toList], 0⟩ := by rfl
 example : mkNested "a(,b".toList "(".toList ")".toList ",".toList false = .error .bpp := by rfl
 example : mkNested "abc".toList "(".toList ")".toList [] true = .error .bpp := by rfl
 
-/-- `Tokenizer.WF` asks for a separator between consecutive tokens; NestedStringTokenizer never
-fills `splits_`, so the requested `t.WF` fails on two tokens -/
-theorem nested_ctor_not_wf : ∃ t, mkNested "a,b".toList "(".toList ")".toList ",".toList false = .ok t ∧ ¬ t.WF :=
-  ⟨⟨["a".toList, "b".toList], [], 0⟩, rfl, fun w => absurd w.splits (by decide)⟩
+/-- the constructor establishes the class invariant (a separator for every token but the last):
+the full statement, since the repair `fix: NestedStringTokenizer never recorded its separators …`.
+Before it the constructor left `splits_` empty (`nested_ctor_not_wf_old`) and this theorem only
+held in the form "`t.WF` iff there is at most one token". -/
+theorem nested_ctor_wf (s op en d : Str) (solid : Bool) (t : Tokenizer) (hs : s.length < 2147483648)
+    (h : mkNested s op en d solid = .ok t) : t.WF ∧ t.pos = 0 := by
+  obtain ⟨h1, h2, _, _⟩ := (mkNested_spec s op en d solid hs).2 t h
+  exact ⟨h2, h1⟩
 
-/-- what the constructor does establish: cursor at 0, no separator, a `size_t` token count; the
-full invariant holds exactly when there is at most one token.  (The `splits` clause is only used
-by `StringTokenizer::unparseRemainingTokens`, which NestedStringTokenizer overrides:
-`nested_history_safe` does not need it.) -/
-theorem nested_ctor_wf_partial (s op en d : Str) (solid : Bool) (t : Tokenizer) (hs : s.length < 2147483648)
-    (h : mkNested s op en d solid = .ok t) :
-    t.pos = 0 ∧ t.splits = [] ∧ t.pos ≤ t.tokens.length ∧ t.tokens.length < SZ ∧
-      (t.WF ↔ t.tokens.length ≤ 1) := by
-  obtain ⟨h1, h2, _, h4⟩ := (mkNested_spec s op en d solid hs).2 t h
-  have hsz : t.tokens.length < SZ := by unfold SZ; omega
-  refine ⟨h1, h2, by omega, hsz, fun w => ?_, fun hle => ⟨by omega, ?_, hsz⟩⟩
-  · have := w.splits; rw [h2] at this; simpa using this
-  · rw [h2]; simpa using hle
-
-/-- any sequence of calls on a NestedStringTokenizer is safe, whatever the state of the object
-(`nextToken` / `getToken` test the cursor, `unparseRemainingTokens` returns "") -/
-theorem nested_calls_safe (t : Tokenizer) (calls : List Call) : safe (runCalls true true t calls) = true := by
-  obtain ⟨l, e⟩ := runCalls_ok true t (.inl rfl) calls
+/-- any sequence of calls on a well-formed NestedStringTokenizer is safe — also
+`unparseRemainingTokens`, which is now the base method whether the object is reached through a
+`NestedStringTokenizer` or a `StringTokenizer&` -/
+theorem nested_calls_safe (t : Tokenizer) (hwf : t.WF) (calls : List Call) :
+    safe (runCalls true true t calls) = true := by
+  obtain ⟨l, e⟩ := runCalls_ok true t hwf calls
   simp [e]
 
 /-- construction followed by any sequence of calls -/
 theorem nested_history_safe (s op en d : Str) (solid : Bool) (hs : s.length < 2147483648) (calls : List Call) :
     safe (mkNested s op en d solid >>= fun t => runCalls true true t calls) = true :=
-  safe_bind (nested_ctor_safe s op en d solid hs) (fun t _ => nested_calls_safe t calls)
+  safe_bind (nested_ctor_safe s op en d solid hs)
+    (fun t ht => nested_calls_safe t (nested_ctor_wf s op en d solid t hs ht).1 calls)
 
 example : (mkNested "a(,)b,c".toList "(".toList ")".toList ",".toList false >>= fun t =>
-    runCalls true true t [.next, .unparse, .remaining, .next, .next, .get 1, .rmEmpty]) =
-    .ok [.str "a(,)b".toList, .str [], .nat 1, .str "c".toList, .raised, .str "c".toList, .unit] := by rfl
+    runCalls true true t [.unparse, .next, .unparse, .remaining, .next, .next, .get 1, .rmEmpty]) =
+    .ok [.str "a(,)b,c".toList, .str "a(,)b".toList, .str "c".toList, .nat 1, .str "c".toList, .raised,
+      .str "c".toList, .unit] := by rfl
 
 /-- what the constructor allocates is bounded by the input -/
 theorem nested_ctor_alloc (s op en d : Str) (solid : Bool) (t : Tokenizer) (hs : s.length < 2147483648)
-    (h : mkNested s op en d solid = .ok t) : sumLen t.tokens ≤ s.length ∧ t.tokens.length ≤ s.length + 1 := by
+    (h : mkNested s op en d solid = .ok t) :
+    sumLen t.tokens + sumLen t.splits ≤ s.length ∧ t.tokens.length ≤ s.length + 1 := by
   obtain ⟨_, _, h3, h4⟩ := (mkNested_spec s op en d solid hs).2 t h
   exact ⟨h3, h4⟩
 
@@ -197,6 +192,19 @@ theorem unparse_old_ub : (mkTokenizerOld "   ".toList " \t\n".toList false false
 theorem tokenizer_old_hangs : mkTokenizerOld "abc".toList [] true false = .error .hang := by rfl
 
 theorem nested_old_hangs : mkNestedOld "abc".toList "(".toList ")".toList [] true = .error .hang := by rfl
+
+/-- NestedStringTokenizer left `splits_` empty and hid `unparseRemainingTokens()` with a
+non-virtual stub returning "": through a `StringTokenizer&` (how KeyvalTools holds its nested
+tokenizer) the base method runs and reads `splits_[0]` of an empty deque as soon as there are two
+tokens -/
+theorem nested_unparse_old_ub :
+    (mkNestedNoSplits "a,b".toList "(".toList ")".toList ",".toList false >>= fun t =>
+      t.unparseRemainingTokens) = .error .ub := by rfl
+
+/-- … because the constructor did not establish the class invariant -/
+theorem nested_ctor_not_wf_old :
+    ∃ t, mkNestedNoSplits "a,b".toList "(".toList ")".toList ",".toList false = .ok t ∧ ¬ t.WF :=
+  ⟨⟨["a".toList, "b".toList], [], 0⟩, rfl, fun w => absurd w.splits (by decide)⟩
 
 /-- `getToken(pos)` read `tokens_[pos]` without a test -/
 theorem getToken_old_ub : (⟨[], [], 0⟩ : Tokenizer).getTokenOld 0 = .error .ub := by rfl
